@@ -471,25 +471,6 @@ def is_sticky_atom(a):
     return b in STICKY or b == b'|'
 
 
-BACK_YANK = (b'yb', b'yB', b'y0', b'y^', b'yh', b'yF', b'yT', b'y?', b'y,', b'yN', b'yn', b'y;')
-
-
-def classify(case, i, out, v, st2):
-    """narrow root-cause classifier of KF-YANK-COL: the last command is a character-wise yank whose region starts before
-    the cursor (vi_yank moves xoff to the start of the region and returns mod = 0, so xcol -- which places the terminal
-    cursor -- is not recomputed); only the cursor cell is wrong and a forced repaint (which recomputes xcol) repairs it"""
-    if i == 0 or v != 'terminal cursor not on the cell of the cursor character':
-        return None
-    last = bytes.fromhex(case['atoms'][i - 1]).lstrip(b'0123456789')
-    if last.startswith(b'"') and len(last) > 2:
-        last = last[2:]
-    if not any(last.startswith(b) for b in BACK_YANK):
-        return None
-    h, cols = case['rows'] - 1, case['cols']
-    v2, _, _ = explain(st2, out['buf'], out['xrow'], out['xoff'], h, cols)
-    return 'KF-YANK-COL' if v2 is None else None
-
-
 def eval_prefix(exe, model, case, i):
     """Evaluate the property after the first i atoms.  Returns a dict:
        status: 'ok' | 'skip' | 'fail';  what, kf, observed, expected, top, left."""
@@ -579,7 +560,6 @@ def judge(exe, model, case, i, a, b, t, snaps):
         what = v
         expected = {'cursor_line': xrow, 'cursor_char_cells': list(cursor_cells(buf, xrow, xoff)), 'top': top, 'left': left}
     out.update(status='fail', what=what, observed={'rows': [cells_str(r) for r in st['cp'][:h]], 'cursor': [st['r'], st['c']]}, expected=expected)
-    out['kf'] = classify(case, i, out, v, st2)
     return out
 
 
